@@ -54,14 +54,13 @@ theorem emit_atomic (s : St) (pre : OneShot) (refs : List Nat) (o : EncOutcome) 
   repeat' split
   all_goals first | exact done_atomic _ _ | exact report_atomic _ _ _ rfl
 
-/-- `bind`: atomic unless it leaves through `kInvalidDisplacement` -/
-theorem bind_atomic (s : St) (id : Nat) (h : (bind s id).code ≠ Err.invalidDisplacement) : (bind s id).atomicOn s := by
-  simp only [bind] at h ⊢
+/-- `bind` (with the validation pass of fix C14-13): atomic, whatever error it reports -/
+theorem bind_atomic (s : St) (id : Nat) : (bind s id).atomicOn s := by
+  simp only [bind]
   repeat' split
   all_goals first
     | exact done_atomic _ _
     | exact report_atomic _ _ _ rfl
-    | (exfalso; simp_all [report])
 
 /-- `align` never touches the label table -/
 theorem align_labels (s : St) (m a : Nat) : (align s m a).st.labels = s.labels := by
